@@ -724,6 +724,11 @@ class SingleListGrader(ItemGrader):
         msg = answer['msg']
         grade_decimal = answer['grade_decimal']
 
+        # Pass our debuglog to the subgrader, so that it can use it if it has debug=True
+        # (as ListGrader does for its subgraders)
+        if hasattr(self, 'debuglog'):
+            self.config['subgrader'].debuglog = self.debuglog
+
         # Split the student response
         student_list = student_input.split(self.config['delimiter'])
 
